@@ -102,6 +102,7 @@ def reset_execution():
     _opq_t.clear()
     X.ORTHO.clear()
     del X.FACTORISATIONS[:]
+    X.CONST_INPUTS.clear()
     NONNEG.clear()
     global _opq
     _opq = itertools.count()
